@@ -267,6 +267,22 @@ func readVersionKeep(w *kit.World, c c18Case) (int, []string, error) {
 				return fmt.Errorf("GetSymbol(%q) returned nil", sym)
 			}
 		}
+		// paging set programmatically on a query parsed from the empty filter (what a REST layer does for "list
+		// everything, page k"): each request works on its own query object
+		if pq, perr := ast.Parse(st, ""); perr != nil {
+			return fmt.Errorf("ast.Parse of the empty filter: %v", perr)
+		} else {
+			skip := c18PageCounter.Add(1) % int64(c.Things)
+			pq.SetSkip(skip)
+			pq.SetLimit(1)
+			page, _, qerr := st.QueryIdsC(tx, pq)
+			if qerr != nil || len(page) != 1 || page[0] != fmt.Sprintf("e%d", skip) {
+				return fmt.Errorf("empty filter with skip %d limit 1 set on the parsed query returned %v (err %v), expected [e%d]", skip, page, qerr, skip)
+			}
+			if all, _, aerr := st.QueryIds(tx, ""); aerr != nil || len(all) != c.Things {
+				return fmt.Errorf("the empty filter returned %v (err %v), expected all %d entities", all, aerr, c.Things)
+			}
+		}
 		for _, name := range c.Templates {
 			tpl := c18Templates[name]
 			text := tpl.text(version, c.Things, c.Targets)
@@ -293,6 +309,8 @@ func readVersionKeep(w *kit.World, c c18Case) (int, []string, error) {
 	})
 	return version, kept, err
 }
+
+var c18PageCounter atomic.Int64
 
 var errHelperLookup = errors.New("lookup failed inside a read transaction")
 
